@@ -296,9 +296,47 @@ static void gen_small_row(struct vf_rng *r, uint8_t *row, int rowno)
 	}
 }
 
+/* Magazine Inventory Page (EN 300 706 11.2): page mFD, packets 1-8 carry the page type codes of pages x0-x9 of two
+ * tens each, packets 9-14 those of the pages xA-xF of three tens each; one code = two Hamming 8/4 bytes, low nibble
+ * first.  Only the packet that holds `lo` is sent: code 0x01 (normal page) for the listed pages, 0x00 elsewhere. */
+static int f_tn;                   /* transmission number of the case (selects the network family) */
+static int f_hex_pgno;             /* the page with a hexadecimal number in this transmission, or 0 */
+
+static int mip_slot(int lo, int *entry)
+{
+	if ((lo & 15) <= 9) { *entry = ((lo >> 4) & 1) * 10 + (lo & 15); return 1 + (lo >> 5); }
+	*entry = ((lo >> 4) % 3) * 6 + (lo & 15) - 10;
+	return 9 + (lo >> 4) / 3;
+}
+
+static int make_mip_unit(int ti, const int *pgnos, int npg, int hexpg)
+{
+	struct tx *t = &txs[ti];
+	struct ttx_pkt p;
+	int u = n_units++, i, e, y = mip_slot(hexpg & 0xFF, &e);
+	unit_len[u] = 0; unit_mag[u] = t->mag;
+	memset(&p, 0, sizeof p);
+	p.mag = t->mag; p.tx = ti;
+	p.y = 0; p.kind = PK_HEADER; p.row = 0;
+	tx_header(p.d, t->mag, 0xFD, 0, t->ctl, 0, t->hdr);
+	unit_add(u, &p);
+	p.y = y; p.kind = PK_MIP; p.row = y;
+	tx_mrag(p.d, t->mag, y);
+	for (i = 0; i < 40; i++) p.d[2 + i] = tx_ham8(0);
+	for (i = 0; i < npg; i++) {
+		int e2;
+		if ((pgnos[i] >> 8) != (hexpg >> 8)) continue;
+		if (mip_slot(pgnos[i] & 0xFF, &e2) != y || e2 >= 20) continue;
+		p.d[2 + e2 * 2] = tx_ham8(0x1); p.d[2 + e2 * 2 + 1] = tx_ham8(0x0);
+	}
+	unit_add(u, &p);
+	return u;
+}
+
 static void gen_small_network(struct vf_rng *r)
 {
 	struct { int pgno, nsub, sub[2], national, flof, nx26, x28; } pd[5];
+	int hex_pi = -1, hex_sent = 0, mip_done = 0, hex_after_mip = 0;
 	static const int rowpool[] = { 1, 2, 3, 4, 5, 10, 11, 22, 23, 24 };
 	int npages, nm, mags[3], i, j, ntx, clock = 43200, last_pg[8], rot, np = 0, chain_sub = -1;
 
@@ -330,6 +368,17 @@ static void gen_small_network(struct vf_rng *r)
 	 * (no other header of the magazine in between), and the carousel comes round again */
 	rot = (int)vf_below(r, (unsigned)npages);
 	pd[rot].nsub = 2;
+	/* Every third transmission has a page with a hexadecimal number (a page the decoder cannot classify by its
+	 * number): it is received while its function is unknown, then a MIP declares it a normal page, then it comes
+	 * again.  Rows reach the cache on the first reception without the decoder knowing that they are text. */
+	f_hex_pgno = 0;
+	if (f_tn % 3 == 2) {
+		static const uint8_t lows[] = { 0x1A, 0x2B, 0xA0, 0xAB, 0xC5, 0x3F, 0x0C, 0xB9, 0xEE, 0x9D };
+		do hex_pi = (int)vf_below(r, (unsigned)npages); while (hex_pi == rot);
+		pd[hex_pi].pgno = (pd[hex_pi].pgno & 0xF00) | lows[vf_below(r, sizeof lows)];
+		pd[hex_pi].nsub = 0;
+		f_hex_pgno = pd[hex_pi].pgno;
+	}
 	ntx = vf_range(r, 5, 9);
 	for (i = 0; i < 8; i++) last_pg[i] = -1;
 	for (i = 0; i < ntx; i++) {
@@ -340,6 +389,8 @@ static void gen_small_network(struct vf_rng *r)
 		else if (np < npages) pi = np++;
 		else if (np++ == npages && vf_chance(r, 3, 4)) pi = rot;
 		else pi = (int)vf_below(r, (unsigned)npages);
+		if (hex_pi >= 0 && !chained && mip_done && !hex_after_mip && i >= ntx - 2) pi = hex_pi;
+		if (pi == hex_pi) { if (mip_done) hex_after_mip = 1; hex_sent++; }
 		memset(t, 0, sizeof *t);
 		memset(f_x26_attr[n_tx], 0, sizeof f_x26_attr[n_tx]);
 		f_b2b[n_tx] = 0;
@@ -351,6 +402,7 @@ static void gen_small_network(struct vf_rng *r)
 		t->ctl = net_serial ? CB(11) : 0;
 		mp = mp_find(t->pgno, t->subno);
 		if (mp ? vf_chance(r, 1, 3) : vf_chance(r, 1, 2)) t->ctl |= CB(4);
+		if (pi == hex_pi && mp && vf_chance(r, 2, 3)) t->ctl &= ~CB(4);     /* mostly without erasure: the cached rows are taken over */
 		t->prev_rows = (mp && !(t->ctl & CB(4))) ? mp->have : 0;
 		clock += vf_range(r, 1, 5);
 		make_header_text(t, clock);
@@ -382,6 +434,24 @@ static void gen_small_network(struct vf_rng *r)
 		queue[mg][qlen[mg]++] = u;
 		last_pg[mg] = t->pgno;
 		n_tx++;
+		if (hex_pi >= 0 && hex_sent > 0 && !mip_done && chain_sub < 0 && (vf_chance(r, 1, 2) || i >= ntx - 3)) {
+			struct tx *m = &txs[n_tx];
+			int all[5], k;
+			memset(m, 0, sizeof *m);
+			memset(f_x26_attr[n_tx], 0, sizeof f_x26_attr[n_tx]);
+			f_b2b[n_tx] = 0;
+			m->pgno = (pd[hex_pi].pgno & 0xF00) | 0xFD; m->mag = m->pgno >> 8; m->subno = 0;
+			m->ctl = (net_serial ? CB(11) : 0) | (vf_chance(r, 1, 2) ? CB(4) : 0);
+			clock += vf_range(r, 1, 5);
+			make_header_text(m, clock);
+			for (k = 0; k < npages; k++) all[k] = pd[k].pgno;
+			u = make_mip_unit(n_tx, all, npages, pd[hex_pi].pgno);
+			queue[m->mag & 7][qlen[m->mag & 7]++] = u;
+			last_pg[m->mag & 7] = m->pgno;
+			n_tx++;
+			mip_done = 1;
+			if (i >= ntx - 1) ntx = i + 2;        /* the page comes once more behind its MIP */
+		}
 		if (f_n830 < 2 && vf_chance(r, 1, 3)) {
 			/* broadcast service data packet somewhere in between */
 			struct ttx_pkt p;
@@ -422,6 +492,7 @@ static int byte_role(const struct ttx_pkt *p, int j)
 	case PK_X26: case PK_X28: return j == 2 ? RO_ADDR : RO_HAM24;
 	case PK_X27: return j == 2 || j == 39 ? RO_ADDR : j < 39 ? RO_HAM8 : RO_UNPROT;
 	case PK_830: return j == 2 ? RO_ADDR : j < 9 ? RO_HAM8 : RO_UNPROT;
+	case PK_MIP: return RO_HAM8;
 	default: return RO_UNPROT;
 	}
 }
@@ -589,6 +660,7 @@ static int run_faults(struct vf_rng *r, long idx)
 	long nA = 0, nB = 0, nC = 0;
 
 	vf_rng_seed(&g, vf_seed, 700000u + (uint64_t)tn);
+	f_tn = (int)tn;
 	gen_small_network(&g);
 	if (n_pk > F_SLOTS) n_pk = F_SLOTS;   /* never with these sizes; checked below */
 	if (pi >= n_pk) return 0;
